@@ -245,6 +245,14 @@ def xarray_checks(path, V, sp, rng):
     s0, s2 = rng.choice([2, 3]), rng.choice([2, 5])
     one('stepped', lambda ds: ds.data[a0:a1:s0, b0:b1, c0:c1:s2].to_numpy(), V[a0:a1:s0, b0:b1, c0:c1:s2])
     one('negative-step', lambda ds: ds.data[::-1, b0:b1, c0:c1].to_numpy(), V[::-1, b0:b1, c0:c1])
+    # bounds counted from the end, as NumPy / xarray indexing allows
+    k0, k2 = rng.randrange(1, nI + 1), rng.randrange(1, nZ + 1)
+    one('negative-start', lambda ds: ds.data[-k0:, :, -k2::s2].to_numpy(), V[-k0:, :, -k2::s2])
+    if nX > 2:
+        one('negative-stop', lambda ds: ds.data[:, 1:-1, :].to_numpy(), V[:, 1:-1, :])
+    one('negative-int', lambda ds: ds.data[-1, :, -1].to_numpy(), V[-1, :, -1])
+    if nX > 3:
+        one('negative-step-bounds', lambda ds: ds.data[:, -1:0:-2, :].to_numpy(), V[:, -1:0:-2, :])
     il = sp.ilines()
     one('sel-coord', lambda ds: ds.data.sel(il=int(il[i])).to_numpy(), V[i])
     return bad
